@@ -202,6 +202,10 @@ CORPUS_PAIRS = [
      H_ + '<metadata><r:RDF xmlns:r="http://www.w3.org/1999/02/22-rdf-syntax-ns#" xmlns:xlink="http://www.w3.org/1999/xlink"/></metadata><defs><path id="a" d="M0,0 L5,0 L5,5 Z"/></defs><use xlink:href="#a"/></svg>'),
     (H_ + '<defs><path id="a" d="M0,0 L5,0 L5,5 Z"/></defs><use xlink:href="#a"/></svg>',
      H_ + '<?note xmlns:xlink is not declared here?><defs><path id="a" d="M0,0 L5,0 L5,5 Z"/></defs><use xlink:href="#a"/></svg>'),
+    (H_ + '<g opacity="0.98999999"><rect width="5" height="5"/><circle r="2"/></g></svg>',
+     H_ + '<g><g opacity="0.98999999"><rect width="5" height="5"/><circle r="2"/></g></g></svg>'),
+    (H_ + '<g opacity="0.9996"><rect width="5" height="5"/><circle r="2" fill="red"/></g><path opacity="0.12345678" d="M0,0 L5,0 L5,5 Z"/></svg>',
+     H_ + '<g><g opacity="0.9996"><rect width="5" height="5"/><circle r="2" fill="red"/></g></g><g><path opacity="0.12345678" d="M0,0 L5,0 L5,5 Z"/></g></svg>'),
     (H_ + '<rect width="5" height="5"/></svg>', H_ + '<foo xmlns=""/><rect width="5" height="5"/></svg>'),
     (H_ + '<g opacity="0.5"><rect width="5" height="5"/><circle r="2"/></g></svg>',
      H_ + '<g opacity="0.5"><rect width="5" height="5"/><bar xmlns=""><rect xmlns="http://www.w3.org/2000/svg" width="1" height="1"/></bar><circle r="2"/></g></svg>'),
